@@ -22,7 +22,7 @@ class ModelProc:
         self.p = subprocess.Popen([exe, mode], stdin=subprocess.PIPE, stdout=subprocess.PIPE, text=True, bufsize=1)
 
     def send(self, line):
-        self.p.stdin.write(line + "\n")
+        self.p.stdin.write(("R " + line[3:] if line.startswith("RO ") else line) + "\n")
         self.p.stdin.flush()
         outs = []
         first = self.p.stdout.readline()
@@ -130,7 +130,10 @@ class Gen:
             own = o
             if self.unroutable and rng.chance(1, 7):
                 own = -1 if rng.chance(1, 2) else -2
-            parts.append("%d %d p%d_%d_%d" % (ident, own, s, ident, self.copy))
+            # "~": the task's workflow id is the one the neighbouring target owns under the usual namespace, in a namespace
+            # under which THIS target owns it (ownership depends on namespace id and workflow id together)
+            alt = "~" if own >= 0 and self.nt > 1 and rng.chance(1, 4) else ""
+            parts.append("%d %d p%d_%d_%d%s" % (ident, own, s, ident, self.copy, alt))
             if own >= 0 and not self.conn[o]:
                 self.pending_src[o] = s
             ident += 1
@@ -250,6 +253,30 @@ def gen_queue_full(rng, exe):
     return g.finish(), True
 
 
+def gen_restart_completion(rng, exe):
+    """C03: the source stream of a shard is re-established while its previous incarnation is still registered (an ordinary
+    reconnect); afterwards the source keeps announcing its watermark and the targets acknowledge: the acknowledgements on
+    the new stream must still become complete."""
+    ns, nt = rng.range(1, 2), rng.range(1, 2)
+    g = Gen(rng, exe, ns, nt, stalls=False)
+    for t in range(nt):
+        g.connect(t)
+    for _ in range(rng.range(2, 6)):
+        g.batch(rng.below(ns))
+        g.ack(rng.below(nt), "prompt")
+    for t in range(nt):
+        g.ack(t, "prompt")
+    s = rng.below(ns)
+    g.wm_sent[s] = False
+    g.emit(("RO %d" if rng.chance(2, 3) else "R %d") % s)
+    for _ in range(rng.range(1, 4)):
+        g.batch(s)
+        g.ack(rng.below(nt), "prompt")
+    g.incomplete = False
+    g.completion_rounds()
+    return g.finish(), True
+
+
 def gen_long_ring(rng, exe):
     """C01: a target first confirms some tasks (the sender's id table advances), then falls more than the table's
     initial capacity (1024) behind, so the table grows while wrapped, then confirms a watermark in the middle."""
@@ -317,7 +344,8 @@ def run_impl(histories, tag, timeout=1500):
 
 
 def run_model(exe, histories, mode="fixed", timeout=600):
-    rc, out = V.run([exe, mode], input="".join("\n".join(h) + "\n" for h in histories), timeout=timeout)
+    # RO (reconnect of a source stream overlapping its predecessor) is a restart as far as the model is concerned
+    rc, out = V.run([exe, mode], input="".join("\n".join("R " + l[3:] if l.startswith("RO ") else l for l in h) + "\n" for h in histories), timeout=timeout)
     if rc != 0:
         return "model driver failed: " + out[-2000:], None
     evs = split_events(out.split("\n"))
@@ -357,7 +385,7 @@ def canon(history, events, project=("T", "K")):
             continue
         if f[0] in ("C", "B"):
             last_t.pop(int(f[1]), None)
-        if f[0] == "R":
+        if f[0] in ("R", "RO"):
             last_k.pop(int(f[1]), None)
         per = {}
         for o in ev[1]:
@@ -405,6 +433,7 @@ def monitor(history, events, check_faults=True):
     src_of = {}
     recv_idx = {}      # (src, id) -> event index of first reception
     unroutable = {}    # src -> list of ids the receiver cannot route
+    aq_snapshot, aq_value = {}, {}
     breaks = {}        # tgt -> event indices of breaks
     restarts = {}      # src -> event indices of restarts
     for idx, (line, ev) in enumerate(zip(history, events)):
@@ -439,6 +468,18 @@ def monitor(history, events, check_faults=True):
             for pid, pay in fwd_by_t.get(t, []):
                 if pid < w:
                     confirmed.add(pay)
+        elif f[0] == "AQ":
+            # the target computes an acknowledgement now; it confirms what it had been sent by now (value: see the AQ output line)
+            aq_snapshot[int(f[1])] = list(fwd_by_t.get(int(f[1]), []))
+            for o in (ev[1] if ev else []):
+                g = o.split()
+                if g[0] == "AQ":
+                    aq_value[int(g[1])] = int(g[2])
+        elif f[0] == "AF":
+            t = int(f[1])
+            for pid, pay in aq_snapshot.pop(t, []):
+                if pid < aq_value.get(t, 0):
+                    confirmed.add(pay)
         elif f[0] == "C":
             t = int(f[1])
             inc_t[t] = inc_t.get(t, 0) + 1
@@ -448,7 +489,7 @@ def monitor(history, events, check_faults=True):
         elif f[0] == "B":
             t = int(f[1])
             breaks.setdefault(t, []).append(idx)
-        elif f[0] == "R":
+        elif f[0] in ("R", "RO"):
             s = int(f[1])
             restarts.setdefault(s, []).append(idx)
             last_k.pop(s, None)
@@ -527,13 +568,15 @@ def monitor(history, events, check_faults=True):
                 lost = [i for i in unroutable.get(s, []) if i < a]
                 if lost:
                     viol.append(("C02", idx, "source %d acknowledged up to %d but unroutable task(s) %s were dropped, never delivered" % (s, a, lost[:5]), "F10"))
+            elif g[0] == "AQ":
+                pass
             elif g[0] == "K!":
                 viol.append(("C01", idx, "acknowledgement sent on a target shard's own stream: " + o))
     return viol, {"received": received, "fwd": fwd, "confirmed": confirmed, "last_k": last_k, "last_high_src": last_high_src}
 
 
 def has_fault(history):
-    return any(l.split()[0] in ("B", "R") for l in history)
+    return any(l.split()[0] in ("B", "R", "RO") for l in history)
 
 
 def hist_hash(h):
